@@ -27,6 +27,40 @@ class Rendered(object):
         shutil.rmtree(self.outdir, ignore_errors=True)
 
 
+_plain = []
+
+
+def plain_renderer_class():
+    """a renderer of the kind the manual shows as its first example: a Renderer subclass with a `default` function for every
+    node and a text hook -- no page templates, no layouts, no themes"""
+    if not _plain:
+        from plasTeX.Renderers import Renderer as Base
+
+        class PlainRenderer(Base):
+            fileExtension = '.html'
+
+            def default(self, node):
+                s = ['<%s>' % _tag(node.nodeName)]
+                if node.hasAttributes():
+                    for key, value in node.attributes.items():
+                        if key == 'self' or value is None:
+                            continue
+                        s.append('<arg-%s>%s</arg-%s>' % (_tag(key), str(value), _tag(key)))
+                s.append(str(node))
+                s.append('</%s>' % _tag(node.nodeName))
+                return '\n'.join(s)
+
+            def textDefault(self, node):
+                return node.replace('&', '&amp;').replace('<', '&lt;').replace('>', '&gt;')
+        _plain.append(PlainRenderer)
+    return _plain[0]
+
+
+def _tag(name):
+    t = re.sub(r'[^A-Za-z0-9]', '-', str(name))
+    return t if t[:1].isalpha() else 'x' + t
+
+
 def render(src, renderer='HTML5', overrides=None, jobname='job', before_parse=None, keep_doc=True):
     """-> Rendered; raises whatever plasTeX raises"""
     import plasTeX
@@ -34,6 +68,8 @@ def render(src, renderer='HTML5', overrides=None, jobname='job', before_parse=No
     base = os.environ.get('PVMON_TMP') or tempfile.gettempdir()
     outdir = tempfile.mkdtemp(prefix='case-', dir=base)
     cwd = os.getcwd()
+    if renderer == 'Plain':
+        overrides = {k: v for k, v in (overrides or {}).items() if k != ('general', 'theme')}
     config = new_config(overrides)
     config['general']['renderer'] = renderer
     doc = plasTeX.TeXDocument(config=config)
@@ -48,7 +84,7 @@ def render(src, renderer='HTML5', overrides=None, jobname='job', before_parse=No
     try:
         os.chdir(outdir)
         tex.parse()
-        R = importlib.import_module('plasTeX.Renderers.' + renderer).Renderer
+        R = plain_renderer_class() if renderer == 'Plain' else importlib.import_module('plasTeX.Renderers.' + renderer).Renderer
         r = R()
         r.render(doc)
         files = dict(r.files)
